@@ -398,7 +398,8 @@ pub fn cross_scope_program(dir: usize, jump: usize) -> (Prog, Id) {
         }
     };
     let arr = b.s(K::Dim { shared: false, redim: false, vars: vec![DimVar { name: "A%".into(), ty: None, dims: vec![(None, num(2))] }] });
-    let mut main = vec![arr, b.print(vec![st("start")])];
+    let rec = b.s(K::Dim { shared: false, redim: false, vars: vec![DimVar { name: "R".into(), ty: Some(DeclTy::Rec("Rec".into())), dims: vec![] }] });
+    let mut main = vec![arr, rec, b.print(vec![st("start")])];
     let mut subs = vec![];
     let bad;
     match dir {
@@ -408,6 +409,8 @@ pub fn cross_scope_program(dir: usize, jump: usize) -> (Prog, Id) {
             main.push(b.s(K::End));
             main.push(b.s(K::Label("Target".into())));
             main.push(b.print(vec![st("target")]));
+            // a record of the module: in the frame of a subprogram the name holds no record
+            main.push(b.assign(Expr::Field(Box::new(var("R")), "N".into()), num(1)));
             main.push(b.assign(Expr::Index("A%".into(), vec![num(1)]), num(1)));
             main.push(b.s(K::End));
             let mut body = vec![b.print(vec![st("work")])];
@@ -441,7 +444,8 @@ pub fn cross_scope_program(dir: usize, jump: usize) -> (Prog, Id) {
             subs.push(SubDef { id, name: "Second".into(), is_function: false, params: vec![], body, is_static: false });
         }
     }
-    (Prog { main, subs, declare: true, ..Default::default() }, bad)
+    let types = vec![TypeDef { name: "Rec".into(), fields: vec![("N".into(), DeclTy::Scalar(Ty::Int))] }];
+    (Prog { types, main, subs, declare: true, ..Default::default() }, bad)
 }
 
 // ---------------------------------------------------------------------------
@@ -546,6 +550,9 @@ pub fn fault_program(fault: usize, container: usize, position: usize, handler: u
         // and an array that is not shared: it does not exist in a foreign context
         b.s(K::Dim { shared: false, redim: false, vars: vec![DimVar { name: "NA%".into(), ty: None, dims: vec![(None, num(2))] }] }),
         b.assign(Expr::Index("NA%".into(), vec![num(1)]), num(3)),
+        // and a record that is not shared
+        b.s(K::Dim { shared: false, redim: false, vars: vec![DimVar { name: "NR".into(), ty: Some(DeclTy::Rec("Rec".into())), dims: vec![] }] }),
+        b.assign(Expr::Field(Box::new(var("NR")), "N".into()), num(4)),
     ];
     if module_end {
         // the handler comes first and is jumped over
@@ -676,7 +683,7 @@ pub fn fault_program(fault: usize, container: usize, position: usize, handler: u
     }
     if !module_end {
     main.push(b.s(K::Label("After".into())));
-    main.push(b.print(vec![st("done"), builtin("ERR", vec![]), var("W%"), var("X%"), var("NS%"), Expr::Index("NA%".into(), vec![num(1)])]));
+    main.push(b.print(vec![st("done"), builtin("ERR", vec![]), var("W%"), var("X%"), var("NS%"), Expr::Field(Box::new(var("NR")), "N".into()), Expr::Index("NA%".into(), vec![num(1)])]));
     main.push(b.s(K::End));
     // the handler
     main.push(b.s(K::Label("H".into())));
@@ -740,7 +747,8 @@ pub fn fault_program(fault: usize, container: usize, position: usize, handler: u
         let id = b.id();
         subs.push(SubDef { id, name: "FailF%".into(), is_function: true, params: vec![Param { name: "P%".into(), ty: None, is_array: false }], body, is_static: false });
     }
-    Some(Prog { main, subs, declare: true, ..Default::default() })
+    let types = vec![TypeDef { name: "Rec".into(), fields: vec![("N".into(), DeclTy::Scalar(Ty::Int))] }];
+    Some(Prog { types, main, subs, declare: true, ..Default::default() })
 }
 
 pub fn fault_cases() -> Vec<(usize, usize, usize, usize, bool)> {
